@@ -111,7 +111,7 @@ def _check_iteration(I, fr, so, old, entry, tag):
       doc='O1.2/R11: the apply loop executes exactly log[applied+1..applied\'] in order, applied\' <= commit; O2.4: subscribers '
           'of an index are popped and each invoked exactly once, SUCCESS with this execution\'s result iff the terms agree; '
           'C12: a raising method does not stop the loop; O17.5: an unsupported VERSION entry stops the batch',
-      assumptions=['A-USERCODE', 'universe'], trusted=['T-PICKLE'],
+      assumptions=['A-USERCODE', 'universe', 'A-I2: the applied position lies inside the journal (first <= lastApplied <= last); see unit tryLogCompaction'], trusted=['T-PICKLE'],
       canaries=[
           ('applied-every-second', lambda mod: mutate_function(mod, APPLY, _mut_applied_plus_two), ['O1.2.apply-loop.step.applied-is-start-plus-iterations']),
           ('success-term-le', lambda mod: mutate_function(mod, APPLY, lambda fn: replace_compare(
